@@ -16,3 +16,6 @@ def run(repo, res, tier):
     effects.rule_memo(repo, res)
     effects.rule_globals(repo, res)
     effects.rule_one_shot_iterators(repo, res)
+    # a mutable default argument is state shared between calls
+    from .. import hookrules as _hk16
+    _hk16.rule_mut_default(repo, res)
